@@ -211,10 +211,10 @@ Proof.
   unfold k. destruct (clen <=? MaxCookieLen) eqn:E; (split; [intros; lia|]); split; lia.
 Qed.
 
-Lemma exchange_inv p nx sent ok nosend dflt :
+Lemma exchange_inv p nx sent ok nosend waste dflt :
   NoDup p -> NoDup sent -> (forall x, In x p -> ~ In x sent) ->
   (forall x, In x p \/ In x sent -> issued_below nx x) -> (length p <= 8)%nat ->
-  Inv dflt -> Inv (sys_exchange issue clen p nx sent ok nosend dflt).
+  Inv dflt -> Inv (sys_exchange issue clen p nx sent ok nosend waste dflt).
 Proof.
   intros Hp Hs Hd Hi Hl Hdf. destruct p as [|c rest]; [exact Hdf|].
   unfold sys_exchange. unfold zlen.
@@ -250,7 +250,7 @@ Proof.
     + exact Hr.
     + constructor; [apply Hd; simpl; tauto|exact Hs].
     + intros x Hx [E|Hin]; [subst; tauto|apply (Hd x); simpl; tauto].
-    + intros x [Hx|[E|Hx]]; apply Hi; simpl; tauto.
+    + intros x [Hx|[E|Hx]]; (apply issued_below_mono with nx; [lia|]); apply Hi; simpl; tauto.
     + simpl in Hl. lia.
 Qed.
 
@@ -314,9 +314,9 @@ Proof. intros H. apply step_inv with (o := o) in H. destruct H as [_ [_ [_ [_ H]
 
 Hypothesis clen_ok : clen <= MaxCookieLen.   (* cookies the client keeps (StoreCookie) *)
 
-Lemma exchange_len p nx sent ok nosend dflt :
+Lemma exchange_len p nx sent ok nosend waste dflt :
   (1 <= length p <= 8)%nat ->
-  let s' := sys_exchange issue clen p nx sent ok nosend dflt in
+  let s' := sys_exchange issue clen p nx sent ok nosend waste dflt in
   if nosend then length (s_pool s') = (length p - 1)%nat else
   if ok then (length p <= length (s_pool s') <= 8)%nat /\ (length p = 8%nat -> length (s_pool s') = 8%nat)
   else length (s_pool s') = (length p - 1)%nat.
@@ -341,7 +341,7 @@ Proof.
   intros HI Hok Hns. split; [|apply pool_le_eight, HI].
   destruct HI as [_ [_ [_ [_ Hl]]]]. unfold sys_step.
   destruct (s_pool s) as [|c rest] eqn:Ep; [simpl; lia|].
-  pose proof (exchange_len (c :: rest) (s_next s + e_skip o) (s_sent s) true false s ltac:(simpl in *; lia)) as H.
+  pose proof (exchange_len (c :: rest) (s_next s + e_skip o) (s_sent s) true false (e_waste o) s ltac:(simpl in *; lia)) as H.
   cbv zeta iota in H. rewrite Hok, Hns. destruct H as [[H1 _] _]. exact H1.
 Qed.
 
@@ -351,7 +351,7 @@ Theorem stays_eight s o :
 Proof.
   intros HI Hok Hns H8. unfold sys_step.
   destruct (s_pool s) as [|c rest] eqn:Ep; [simpl in H8; lia|].
-  pose proof (exchange_len (c :: rest) (s_next s + e_skip o) (s_sent s) true false s ltac:(simpl in *; lia)) as H.
+  pose proof (exchange_len (c :: rest) (s_next s + e_skip o) (s_sent s) true false (e_waste o) s ltac:(simpl in *; lia)) as H.
   cbv zeta iota in H. rewrite Hok, Hns. apply H. exact H8.
 Qed.
 
@@ -362,7 +362,7 @@ Theorem rekey_success s o :
 Proof.
   intros Ep Hk Hok Hns. unfold sys_step. rewrite Ep, Hk, Hok, Hns.
   pose proof (exchange_len (issue_n issue (s_next s + e_skip o) keCookies) (s_next s + e_skip o + keCookies)
-                (s_sent s) true false s) as H.
+                (s_sent s) true false (e_waste o) s) as H.
   rewrite issue_n_length in H. cbv zeta iota in H. apply H; unfold keCookies; lia.
 Qed.
 
@@ -372,7 +372,7 @@ Theorem rekey_loss s o :
 Proof.
   intros Ep Hk Hok. unfold sys_step. rewrite Ep, Hk.
   pose proof (exchange_len (issue_n issue (s_next s + e_skip o) keCookies) (s_next s + e_skip o + keCookies)
-                (s_sent s) (e_ok o) (e_nosend o) s) as H.
+                (s_sent s) (e_ok o) (e_nosend o) (e_waste o) s) as H.
   rewrite issue_n_length in H. cbv zeta in H. specialize (H ltac:(unfold keCookies; lia)).
   destruct (e_nosend o); [rewrite H; reflexivity|].
   destruct Hok as [Hok|Hok]; [rewrite Hok in *; rewrite H; reflexivity|discriminate].
@@ -385,7 +385,7 @@ Theorem loss_pops_one s o :
 Proof.
   intros HI Hne Hok. destruct HI as [_ [_ [_ [_ Hl]]]]. unfold sys_step.
   destruct (s_pool s) as [|c rest] eqn:Ep; [congruence|].
-  pose proof (exchange_len (c :: rest) (s_next s + e_skip o) (s_sent s) (e_ok o) (e_nosend o) s ltac:(simpl in *; lia)) as H.
+  pose proof (exchange_len (c :: rest) (s_next s + e_skip o) (s_sent s) (e_ok o) (e_nosend o) (e_waste o) s ltac:(simpl in *; lia)) as H.
   cbv zeta in H.
   destruct (e_nosend o); [exact H|].
   destruct Hok as [Hok|Hok]; [rewrite Hok in *; exact H|discriminate].
